@@ -57,9 +57,6 @@ Proof.
   rewrite E in H2. inversion H2; subst. eapply cext_trans; [apply rv_fold_cext|apply cext_line].
 Qed.
 
-Lemma rv_not_helper s i k : rv_name i <> helper_name s k.
-Proof. unfold rv_name, helper_name, var_name. destruct ((0 <? b_funcs s)%nat && negb false); intro H; cbn in H; inversion H. Qed.
-
 Lemma map_nth_agree {A B C} (f : A -> C) (g : B -> C) : forall (l : list A) (l' : list B) i v,
   map f l = map g l' -> nth_error l' i = Some v -> exists a, nth_error l i = Some a /\ f a = g v.
 Proof.
@@ -134,7 +131,7 @@ Proof.
   exists (X ++ Xr), bF. split; [eapply cext_trans; eassumption|]. split; [exact CF|].
   split.
   { apply (untouched_trans klo mlo XS sf sb sr X b0 b1 bF Ex (cx_mono _ _ _ Er) U).
-    intros n _ Hh _ _ Hrv. apply FF; assumption. }
+    intros n _ Hh _ _ Hrv _. apply FF; assumption. }
   split; [exact VF|].
   intro rest. rewrite <- app_assoc. specialize (Hk [] (Xr ++ rest) (bF, [])). cbn [after] in Hk.
   specialize (Hk (HkF [] rest)). unfold prepend in Hk. cbn [fst snd] in Hk. rewrite app_nil_r in Hk. exact Hk.
@@ -233,7 +230,7 @@ Proof.
   exists X, bF. split; [exact Ex|].
   split; [intro rest; apply params_run; exact (Hk rest)|].
   (* names of the caller are none of the callee's *)
-  destruct Hflc as [Fc1 [Fc2 [Fc3 Fc4]]]. destruct Hflf as [Ff1 [Ff2 [Ff3 Ff4]]].
+  destruct Hflc as [Fc1 [Fc2 [Fc3 [Fc4 Fc5]]]]. destruct Hflf as [Ff1 [Ff2 [Ff3 [Ff4 Ff5]]]].
   assert (forall n, (forall x, In x XS -> v_global x = true -> n <> user_name s x) -> (forall c y, (c < mlo_c)%nat -> n <> mangled c y) ->
                     (forall k, (k < klo_c)%nat -> n <> fname k) -> (forall i, n <> rv_name i) -> sh_get n bF = sh_get n b) as Frame.
   { intros n Hg Hm Hk0 Hr. rewrite UF.
@@ -244,7 +241,8 @@ Proof.
     - intro k. rewrite (helper_name_local sf k Hfun). apply Hm. exact Hcf.
     - intros k Hk1. apply Hk0. pose proof (cx_mono _ _ _ Ex). lia.
     - intros c y Hc. apply Hm. lia.
-    - exact Hr. }
+    - exact Hr.
+    - intro i. unfold ma_var. rewrite (var_name_local sf _ Hfun). apply Hm. exact Hcf. }
   split.
   { constructor; [exact Cf| |exact Chy|exact Cinj].
     intros x w Hx Hw. unfold leave in Hw. destruct (v_global x) eqn:Gx.
@@ -256,7 +254,7 @@ Proof.
       + intros k _. exact (Fc1 x k Hx).
       + intro i. exact (Fc2 x i Hx). }
   split; [|exact VF].
-  intros n Hu Hh Hf Hm Hr. apply Frame.
+  intros n Hu Hh Hf Hm Hr _. apply Frame.
   - intros x Hx _. exact (Hu x Hx).
   - exact Hm.
   - intros k Hk0. apply Hf. left. exact Hk0.
